@@ -140,7 +140,7 @@ func (s *st) markRevoked(t *world.Tok, expired bool) {
 }
 
 // revoke is the free operation: any token, any caller, any hint.
-func (s *st) revoke(tag string) {
+func (s *st) revoke(tag string, narrow bool) {
 	n := len(s.l.Toks)
 	k := zz.Choice("tok", n+3)
 	var val string
@@ -164,9 +164,16 @@ func (s *st) revoke(tag string) {
 		val = "ory_at_Zm9yZ2VkLXJhbmRvbS1wYXJ0." + world.SigOf(t.Val)
 		alias = true
 	}
-	pres := zz.String("presenter", 3)
-	sec := zz.String("secret", 12)
-	hint := zz.String("hint", 14)
+	var pres, sec, hint string
+	if narrow {
+		// first of two operations (thorough tier): one of the two registered clients with its own secret, no hint
+		k := zz.Choice("presenter-index", 2)
+		pres, sec = s.client[k], []string{world.Secret1, world.Secret2}[k]
+	} else {
+		pres = zz.String("presenter", 3)
+		sec = zz.String("secret", 12)
+		hint = zz.String("hint", 14)
+	}
 
 	now := time.Now()
 	pre := s.w.Verdicts(s.l)
@@ -282,15 +289,15 @@ func (s *st) preOp(kinds int) {
 	}
 }
 
-// symAdvance returns a symbolic duration in [0, 45d] that stays 2s clear of the expiry instants of
+// symAdvance returns a symbolic duration in [0, 45d] that stays 4s clear of the expiry instants of
 // tokens issued at the start (1h, 30d). Exactly-at-expiry behaviour is property C07's subject, and the
 // native replay clock is the wall clock plus an offset, so sub-second boundary cases cannot be replayed.
 func symAdvance() time.Duration {
 	d := time.Duration(zz.Int("advance", 0, int64(45*24*time.Hour)))
 	for _, b := range []time.Duration{atLife, rtLife} {
-		zz.Assume(zz.Or(d < b-2*time.Second, d > b+2*time.Second))
+		zz.Assume(zz.Or(d < b-4*time.Second, d > b+4*time.Second))
 	}
-	zz.Note("clock advances keep 2s clear of token expiry instants (boundary behaviour: C07)")
+	zz.Note("clock advances keep 4s clear of token expiry instants (boundary behaviour: C07)")
 	return d
 }
 
@@ -303,18 +310,18 @@ func run(origin, maxPrefix, preKinds, freeOps int) {
 		s.rotate(0)
 	}
 	s.preOp(preKinds)
-	tags := []string{"revoke", "revoke2"}
-	for k := 0; k < freeOps; k++ {
-		s.revoke(tags[k])
+	if freeOps == 2 {
+		s.revoke("first", true)
 	}
+	s.revoke("revoke", false)
 }
 
 // ZZ_C08_code: grants from the plain code flow.
 // quick: <=1 rotation, pre-state in {fresh, aged by a symbolic duration, revoked}, one free revocation;
-// thorough: <=2 rotations, four pre-states, two free revocations.
+// thorough: <=2 rotations, four pre-states, one free revocation (two: ZZ_C08_twice_T).
 func ZZ_C08_code() {
 	if zz.Thorough() {
-		run(originCode, 2, 4, 2)
+		run(originCode, 2, 4, 1)
 	} else {
 		run(originCode, 1, 3, 1)
 	}
@@ -333,6 +340,12 @@ func ZZ_C08_hybrid() {
 // the access token from the authorization endpoint is the only token of its grant.
 func ZZ_C08_hybridfresh() {
 	run(originHybridFresh, 0, 2, 1)
+}
+
+// ZZ_C08_twice_T: two revocations in a row (thorough tier only): the first by one of the registered clients
+// for any token, the second fully symbolic; reaches revoked-then-revoked-again and foreign-then-owner histories.
+func ZZ_C08_twice_T() {
+	run(originCode, 1, 2, 2)
 }
 
 // ZZ_C08_password_T: resource-owner password origin (thorough tier only).
